@@ -57,7 +57,7 @@ theorem attrLoop_spec (as : List Attr) : ∀ {r r' : AttrResult}, attrLoop r as 
     cases a with
     | badCount l => simp [attrLoop] at h
     | unknown n => simp [attrLoop] at h
-    | notConstant => simp [attrLoop] at h
+    | notConstant w => simp [attrLoop] at h
     | bindGroup g =>
       simp only [attrLoop] at h
       obtain ⟨h1, h2, h3⟩ := ih h
@@ -84,7 +84,7 @@ theorem attrLoop_spec (as : List Attr) : ∀ {r r' : AttrResult}, attrLoop r as 
 def wellFormed : Attr → Bool
   | .badCount _ => false
   | .unknown _ => false
-  | .notConstant => false
+  | .notConstant _ => false
   | _ => true
 
 theorem attrLoop_wellFormed (as : List Attr) : ∀ {r r' : AttrResult}, attrLoop r as = .ok r' →
@@ -96,7 +96,7 @@ theorem attrLoop_wellFormed (as : List Attr) : ∀ {r r' : AttrResult}, attrLoop
     cases a with
     | badCount l => simp [attrLoop] at h
     | unknown n => simp [attrLoop] at h
-    | notConstant => simp [attrLoop] at h
+    | notConstant w => simp [attrLoop] at h
     | bindGroup g => simp only [attrLoop] at h; simp [wellFormed, ih h]
     | bindless => simp only [attrLoop] at h; simp [wellFormed, ih h]
     | vkBinding i g => simp only [attrLoop] at h; simp [wellFormed, ih h]
